@@ -581,7 +581,7 @@ func c16JudgeTx(c *mon.Ctx, in *c16Tx) {
 	if in.Shape.Ambiguous() {
 		return
 	}
-	tx := in.Shape.Build()
+	tx := in.Shape.BuildShared()
 	if len(tx.Inputs)+len(tx.Outputs) > 0 {
 		c.Distinct(prng.HashBytes(tx.Bytes(), []byte(in.Stage)))
 	}
